@@ -279,6 +279,17 @@ class _Expr(ast.NodeTransformer):
         if isinstance(node.test, ast.UnaryOp) and isinstance(node.test.op, ast.Not):
             self.changed = True
             node.test, node.body, node.orelse = node.test.operand, node.orelse, node.body
+        # E5 equal alternatives: `X if a else (Y if b else X)` -> `Y if not a and b else X`
+        if isinstance(node.orelse, ast.IfExp):
+            inner = node.orelse
+            if ast.dump(node.body) == ast.dump(inner.orelse):
+                self.changed = True
+                test = nnf(_loc(ast.BoolOp(op=ast.And(), values=[negate(node.test), inner.test]), node))
+                return self.visit_IfExp(_loc(ast.IfExp(test=test, body=inner.body, orelse=node.body), node))
+            if ast.dump(node.body) == ast.dump(inner.body):
+                self.changed = True
+                test = nnf(_loc(ast.BoolOp(op=ast.Or(), values=[node.test, inner.test]), node))
+                return self.visit_IfExp(_loc(ast.IfExp(test=test, body=node.body, orelse=inner.orelse), node))
         # E4 boolean conditional expressions are and / or
         c, a, b = node.test, node.body, node.orelse
         if is_bool_expr(c):
@@ -612,14 +623,15 @@ class Canon:
                 new = _loc(ast.If(test=negate(s.test), body=s.orelse, orelse=[]), s)
                 return [new] + s.body, 0
             # S6 conditional value: `if c: x = a else: x = b`  ->  `x = a if c else b`
-            if (
-                len(s.body) == 1 and len(s.orelse) == 1
-                and all(isinstance(z, ast.Assign) and len(z.targets) == 1 and isinstance(z.targets[0], ast.Name) for z in (s.body[0], s.orelse[0]))
-                and s.body[0].targets[0].id == s.orelse[0].targets[0].id  # type: ignore[attr-defined]
-                and not _mentions(s.test, {s.body[0].targets[0].id})  # type: ignore[attr-defined]
-            ):
-                ie = _loc(ast.IfExp(test=s.test, body=s.body[0].value, orelse=s.orelse[0].value), s)  # type: ignore[attr-defined]
-                return [_loc(ast.Assign(targets=[s.body[0].targets[0]], value=ie), s)], 0  # type: ignore[attr-defined]
+            if len(s.body) == 1 and len(s.orelse) == 1:
+                ta, tb = _plain_target(s.body[0]), _plain_target(s.orelse[0])
+                if ta is not None and ta == tb and not _mentions(s.test, {ta}):
+                    ie = _loc(ast.IfExp(test=s.test, body=s.body[0].value, orelse=s.orelse[0].value), s)  # type: ignore[attr-defined]
+                    ann = next((z.annotation for z in (s.body[0], s.orelse[0]) if isinstance(z, ast.AnnAssign)), None)
+                    tgt = ast.Name(id=ta, ctx=ast.Store())
+                    if ann is not None:
+                        return [_loc(ast.AnnAssign(target=tgt, annotation=ann, value=ie, simple=1), s)], 0
+                    return [_loc(ast.Assign(targets=[tgt], value=ie), s)], 0
             # S17 branches with the same body: `if a: X elif b: Y else: X`  ->  `if not a and b: Y else: X`
             if s.orelse and len(s.orelse) == 1 and isinstance(s.orelse[0], ast.If) and s.orelse[0].orelse:
                 inner = s.orelse[0]
@@ -1159,6 +1171,15 @@ def _replace_head(s: ast.stmt, old: ast.expr, new: ast.expr) -> None:
                     return
     # in-place transformers return the same object: nothing to do
     return
+
+
+def _plain_target(s: ast.stmt) -> Optional[str]:
+    """x for `x = e` / `x: T = e`."""
+    if isinstance(s, ast.Assign) and len(s.targets) == 1 and isinstance(s.targets[0], ast.Name):
+        return s.targets[0].id
+    if isinstance(s, ast.AnnAssign) and isinstance(s.target, ast.Name) and s.value is not None:
+        return s.target.id
+    return None
 
 
 def _same(a: List[ast.stmt], b: List[ast.stmt]) -> bool:
